@@ -62,7 +62,7 @@ def _worker(args):
 
 def main(tier):
     chk = Check("C13", tier)
-    n = 8000 if tier == "quick" else 400000
+    n = 40000 if tier == "quick" else 400000
     build_probe("release")
     results = pmap(_worker, [(s, 16, n // 16, chk.seed) for s in range(16)], 16)
     for r in results:
